@@ -123,6 +123,37 @@ package termincommittee
 //@   | && CanonVC(vcm)
 //@   | && (!HasProof(vcm.content) ==> vcm.block == nil)
 
+// the conditions under which a member adopts a NEW_VIEW (every rejecting branch of HandleNewView excluded); NVC(k) is
+// the k-th vote nested in the header. Where several votes carry a proof of the highest view the conditions are demanded
+// of each of them (the handler picks one). The environment hypotheses of the fresh-block path: the context registry hands
+// out the context of (height, view), no context is cancelled while the message is handled, the consumer approves the block.
+//@ pred NVVotesGood(tic *TermInCommittee, hdr *protocol.NewViewHeader) =
+//@   | (forall qids []primitives.MemberId :: len(qids) == seq_len(hdr, "ViewChangeConfirmations") && (forall qk :: 0 <= qk && qk < seq_len(hdr, "ViewChangeConfirmations") ==> qids[qk] == seq_at(hdr, "ViewChangeConfirmations", qk).Sender().MemberId())
+//@   |    ==> SW(qids, tic.committeeMembers, len(tic.committeeMembers)) >= Qz(SumMW(tic.committeeMembers, len(tic.committeeMembers))))
+//@   | && (forall ck :: 0 <= ck && ck < seq_len(hdr, "ViewChangeConfirmations") ==> seq_at(hdr, "ViewChangeConfirmations", ck).SignedHeader().BlockHeight() == hdr.BlockHeight()
+//@   |      && seq_at(hdr, "ViewChangeConfirmations", ck).SignedHeader().View() == hdr.View()
+//@   |      && seq_at(hdr, "ViewChangeConfirmations", ck).SignedHeader().MessageType() == protocol.LEAN_HELIX_VIEW_CHANGE
+//@   |      && VerifiedMsg(tic.keyManager, seq_at(hdr, "ViewChangeConfirmations", ck).SignedHeader().BlockHeight(), seq_at(hdr, "ViewChangeConfirmations", ck).SignedHeader().Raw(), seq_at(hdr, "ViewChangeConfirmations", ck).Sender().MemberId(), seq_at(hdr, "ViewChangeConfirmations", ck).Sender().Signature()))
+//@   | && (forall cj, ck :: 0 <= cj && cj < ck && ck < seq_len(hdr, "ViewChangeConfirmations") ==> seq_at(hdr, "ViewChangeConfirmations", cj).Sender().MemberId() != seq_at(hdr, "ViewChangeConfirmations", ck).Sender().MemberId())
+//@ pred NVLockGood(tic *TermInCommittee, nvm *interfaces.NewViewMessage, c *protocol.ViewChangeMessageContent) = ProofAcceptable(tic, c.SignedHeader().PreparedProof(), tic.State.height, c.SignedHeader().View())
+//@   | && nvm.content.Message().SignedHeader().BlockHash() == c.SignedHeader().PreparedProof().PreprepareBlockRef().BlockHash()
+//@   | && Commits(tic.blockUtils, nvm.content.SignedHeader().BlockHeight(), nvm.block, c.SignedHeader().PreparedProof().PreprepareBlockRef().BlockHash())
+//@ pred AcceptsNewView(tic *TermInCommittee, nvm *interfaces.NewViewMessage) = tic.State.view <= nvm.content.SignedHeader().View()
+//@   | && nvm.content.SignedHeader().MessageType() == protocol.LEAN_HELIX_NEW_VIEW
+//@   | && VerifiedMsg(tic.keyManager, nvm.content.SignedHeader().BlockHeight(), nvm.content.SignedHeader().Raw(), nvm.content.Sender().MemberId(), nvm.content.Sender().Signature())
+//@   | && nvm.content.Sender().MemberId() == LeaderOf(tic.committeeMembers, nvm.content.SignedHeader().View())
+//@   | && NVVotesGood(tic, nvm.content.SignedHeader())
+//@   | && nvm.content.Message().SignedHeader().View() == nvm.content.SignedHeader().View() && nvm.content.Message().SignedHeader().BlockHeight() == nvm.content.SignedHeader().BlockHeight()
+//@   | && (forall lk :: 0 <= lk && lk < seq_len(nvm.content.SignedHeader(), "ViewChangeConfirmations") && HasProof(seq_at(nvm.content.SignedHeader(), "ViewChangeConfirmations", lk)) ==> NVLockGood(tic, nvm, seq_at(nvm.content.SignedHeader(), "ViewChangeConfirmations", lk)))
+//@   | && ((forall lk :: 0 <= lk && lk < seq_len(nvm.content.SignedHeader(), "ViewChangeConfirmations") ==> !HasProof(seq_at(nvm.content.SignedHeader(), "ViewChangeConfirmations", lk))) ==>
+//@   |      !tic.State.Contexts.shutdown && (tic.State.Contexts.newestHvCanceledOlder == nil || !Older(tic.State.height, nvm.content.SignedHeader().View(), tic.State.Contexts.newestHvCanceledOlder.height, tic.State.Contexts.newestHvCanceledOlder.view))
+//@   |      && (forall lc context.Context :: StaysLive(lc))
+//@   |      && Validates(tic.blockUtils, nvm.content.SignedHeader().BlockHeight(), LeaderOf(tic.committeeMembers, nvm.content.SignedHeader().View()), nvm.block, nvm.content.Message().SignedHeader().BlockHash(), tic.prevBlock))
+//@   | && !ppStored[nvm.content.SignedHeader().View()]
+//@   | && nvm.content.Message().SignedHeader().MessageType() == protocol.LEAN_HELIX_PREPREPARE && Canonical(nvm.content.Message().SignedHeader())
+//@   | && Signed(tic, nvm.content.Message().SignedHeader(), nvm.content.Message().Sender())
+//@   | && nvm.content.Message().Sender().MemberId() == LeaderOf(tic.committeeMembers, nvm.content.SignedHeader().View())
+
 // two correct members of one committee at one height: same member list, and their key managers give the same verdicts
 // (A-KM-AGREE: verification is a function of the public data, the same at every correct node)
 //@ pred SameCommittee(a *TermInCommittee, b *TermInCommittee) = len(a.committeeMembers) == len(b.committeeMembers)
@@ -319,6 +350,7 @@ package termincommittee
 //@   ensures [O9.lock-kept] LockKept(tic, old(tic.preparedLocally), old(tic.preparedLocally.isPreparedLocally), old(tic.preparedLocally.latestView))
 //@   inv GhostInv(tic)
 //@   props C10 C03 C09 C12 C11
+//@   ensures [frame.proposal-log-and-election-marker-untouched] (forall fgv int :: ppStored[fgv] == old(ppStored[fgv]) && ppHash[fgv] == old(ppHash[fgv]) && sentPrepare[fgv] == old(sentPrepare[fgv])) && tic.latestViewThatProcessedVCMOrNVM == old(tic.latestViewThatProcessedVCMOrNVM)
 //@   safety iface
 //@   requires TicOK(tic)
 //@   requires blockHeight == tic.State.height
@@ -333,6 +365,7 @@ package termincommittee
 //@   ensures [O9.lock-kept] LockKept(tic, old(tic.preparedLocally), old(tic.preparedLocally.isPreparedLocally), old(tic.preparedLocally.latestView))
 //@   inv GhostInv(tic)
 //@   props C03 C04 C10 C13 C09 C15 C12 C11
+//@   ensures [frame.proposal-log-and-election-marker-untouched] (forall fgv int :: ppStored[fgv] == old(ppStored[fgv]) && ppHash[fgv] == old(ppHash[fgv]) && sentPrepare[fgv] == old(sentPrepare[fgv])) && tic.latestViewThatProcessedVCMOrNVM == old(tic.latestViewThatProcessedVCMOrNVM)
 //@   safety iface
 //@   requires TicOK(tic)
 //@   requires blockHeight == tic.State.height
@@ -352,6 +385,7 @@ package termincommittee
 //@   ensures (forall pv int :: proposed[pv] == old(proposed[pv])) && tic.preparedLocally == old(tic.preparedLocally) && tic.latestViewThatProcessedVCMOrNVM == old(tic.latestViewThatProcessedVCMOrNVM) && tic.State.view == old(tic.State.view)
 //@   ensures tic.committedBlock == old(tic.committedBlock) && ncommitted == old(ncommitted) && tic.State == old(tic.State) && tic.State.height == old(tic.State.height)
 //@   ensures forall ov int :: ppStored[ov] == old(ppStored[ov]) && ppHash[ov] == old(ppHash[ov])
+//@   ensures [only-a-commit-is-sent] forall ov int :: sentPrepare[ov] == old(sentPrepare[ov]) && sentPrepareHash[ov] == old(sentPrepareHash[ov])
 //@   loop range commits
 //@     invariant true
 
@@ -371,12 +405,16 @@ package termincommittee
 // That an accepted block is present at all is NOT assumed (C12: a proposal may arrive without its block).
 //@ iface interfaces.BlockUtils.ValidateBlockProposal
 //@   ensures result == nil ==> Commits(self, blockHeight, block, blockHash) && (block != nil ==> block.Height() == blockHeight)
+// (C11 only) the consumer's verdict is a function of the proposal; Validates is otherwise unconstrained
+//@   ensures [A-SPI.verdict-is-a-function-of-the-proposal] (result == nil) == Validates(self, blockHeight, memberId, block, blockHash, prevBlock)
 
 //@ iface interfaces.BlockUtils.RequestNewBlockProposal
 //@   ensures Commits(self, blockHeight, result0, result1) && result0 != nil && result0.Height() == blockHeight
 
 //@ func (*TermInCommittee).validatePreprepare
-//@   props C07 C08 C10 C12
+//@   props C07 C08 C10 C12 C11
+//@   ensures [C11:complete] !ppStored[ppm.content.SignedHeader().View()] && ppm.content.SignedHeader().MessageType() == protocol.LEAN_HELIX_PREPREPARE && Canonical(ppm.content.SignedHeader())
+//@     | && Signed(tic, ppm.content.SignedHeader(), ppm.content.Sender()) && ppm.content.Sender().MemberId() == LeaderOf(tic.committeeMembers, ppm.content.SignedHeader().View()) ==> result == nil
 //@   safety iface
 //@   requires TicOK(tic) && ppm != nil && ppm.content != nil && ppm.content.SignedHeader().BlockHeight() == tic.State.height
 //@   ensures [sound.not-yet-stored] result == nil ==> !ppStored[ppm.content.SignedHeader().View()]
@@ -389,6 +427,8 @@ package termincommittee
 //@   requires [term-not-yet-committed] ncommitted == 0
 //@   ensures [O9.lock-kept] LockKept(tic, old(tic.preparedLocally), old(tic.preparedLocally.isPreparedLocally), old(tic.preparedLocally.latestView))
 //@   props C04 C07 C08 C10 C09 C12 C11
+//@   ensures [frame.election-marker-untouched] tic.latestViewThatProcessedVCMOrNVM == old(tic.latestViewThatProcessedVCMOrNVM)
+//@   ensures [C11:a-proposal-for-the-current-view-is-stored-and-answered] old(tic.State.view) == ppm.content.SignedHeader().View() ==> ppStored[ppm.content.SignedHeader().View()] && sentPrepare[ppm.content.SignedHeader().View()]
 //@   safety iface
 //@   requires TicOK(tic)
 //@   inv GhostInv(tic)
@@ -412,7 +452,13 @@ package termincommittee
 // ---------------- NEW_VIEW (C07) ----------------
 
 //@ func (*TermInCommittee).validateViewChangeVotes
-//@   props C07 C08 C12
+//@   props C07 C08 C12 C11
+//@   ensures [C11:complete] (forall qids []primitives.MemberId :: len(qids) == len(confirmations) && (forall qk :: 0 <= qk && qk < len(confirmations) ==> qids[qk] == confirmations[qk].Sender().MemberId())
+//@     |    ==> SW(qids, tic.committeeMembers, len(tic.committeeMembers)) >= Qz(SumMW(tic.committeeMembers, len(tic.committeeMembers))))
+//@     | && (forall ck :: 0 <= ck && ck < len(confirmations) ==> confirmations[ck].SignedHeader().BlockHeight() == targetBlockHeight && confirmations[ck].SignedHeader().View() == targetView
+//@     |      && confirmations[ck].SignedHeader().MessageType() == protocol.LEAN_HELIX_VIEW_CHANGE
+//@     |      && VerifiedMsg(tic.keyManager, confirmations[ck].SignedHeader().BlockHeight(), confirmations[ck].SignedHeader().Raw(), confirmations[ck].Sender().MemberId(), confirmations[ck].Sender().Signature()))
+//@     | && (forall cj, ck :: 0 <= cj && cj < ck && ck < len(confirmations) ==> confirmations[cj].Sender().MemberId() != confirmations[ck].Sender().MemberId()) ==> result == nil
 //@   safety iface
 //@   requires TicOK(tic)
 //@   requires forall k :: 0 <= k && k < len(confirmations) ==> confirmations[k] != nil
@@ -493,12 +539,14 @@ package termincommittee
 //@   assert before call processPreprepare [O15.6.context-observed-live-after-validation] latestVote != nil || lastCtxErrNil
 //@   requires [term-not-yet-committed] ncommitted == 0
 //@   ensures [O9.lock-kept] LockKept(tic, old(tic.preparedLocally), old(tic.preparedLocally.isPreparedLocally), old(tic.preparedLocally.latestView))
-//@   props C04 C07 C08 C10 C09 C15 C12
+//@   props C04 C07 C08 C10 C09 C15 C12 C11
 //@   safety iface
 //@   requires TicOK(tic)
 //@   inv GhostInv(tic)
 //@   requires [FilterOK] nvm != nil && nvm.content != nil && nvm.content.SignedHeader().BlockHeight() == tic.State.height && nvm.content.Sender().MemberId() != tic.myMemberId
 //@   modifies @TIC, ghost:countedP, ghost:countedC
+//@   ensures [C11:O11.2.an-acceptable-new-view-is-adopted] old(AcceptsNewView(tic, nvm)) ==> ppStored[nvm.content.SignedHeader().View()] && tic.latestViewThatProcessedVCMOrNVM == nvm.content.SignedHeader().View()
+//@   must_fail [C11:vacuity.the-acceptance-condition-is-satisfiable] !old(AcceptsNewView(tic, nvm))
 //@   loop iter viewChangeConfirmationsIter
 //@     invariant [src] iter_src(viewChangeConfirmationsIter) == nvmHeader && nvmHeader == nvm.content.SignedHeader()
 //@     invariant [pos] iter_pos(viewChangeConfirmationsIter) == len(viewChangeConfirmations) && iter_pos(viewChangeConfirmationsIter) <= seq_len(nvmHeader, "ViewChangeConfirmations")
